@@ -582,6 +582,9 @@ func (g *Gen) modifyKind(s *gsession, forced int) {
 	case 0: // handover: the downlink FAR forwards to a (new) gNB, optionally asking for an end marker
 		b := s.bearers[g.R.Intn(len(s.bearers))]
 		nf := pfcpx.FAR{ID: b.dlFAR, Action: 2, HasFP: true, Dst: "access", OHC: true, PeerIP: 0xC0A80000 + uint32(g.R.Intn(4)), TEID: g.teid()}
+		if g.R.Intn(4) == 0 {
+			nf.Dst = "none" // the Destination Interface is sent only "if changed": the new Outer Header Creation alone
+		}
 
 		if g.Opt.EndMarker && g.R.Intn(2) == 0 {
 			nf.SNDEM = true
